@@ -363,7 +363,7 @@ pub fn run(tier: Tier) -> ! {
     }
     prepare_models();
     // predict
-    let pool = ["", "a", "あい", "a b", "a/b", "a\\b", "ab12", "a\0b", "火星猫だ", "abab", "e\u{301}ab", "abab ab12 あいa/b\\ 火星猫だ abab ab12 あいa/b 火星猫だ abab ab12 あいa 12ab ａｂ１２ abab ab12 あいa/b 火星猫だ"];
+    let pool = ["", "a", "あい", "a b", "a/b", "a\\b", "ab12", "a\0b", "火星猫だ", "abab", "e\u{301}ab", "｢あ｣､a｡", "｢あい｣｡ｶ－", "abab ab12 あいa/b\\ 火星猫だ abab ab12 あいa/b 火星猫だ abab ab12 あいa 12ab ａｂ１２ abab ab12 あいa/b 火星猫だ"];
     let mut streams: Vec<String> = vec![];
     let maxl = tier.pick(2, 3);
     for n in 1..=maxl {
@@ -441,7 +441,7 @@ pub fn run(tier: Tier) -> ! {
     chk.assume("layout: tokenised line, newline, then the score block, then the tag-score block (the layout of the default mode and of the README); for a rejected line only the empty line is fixed, an empty block per requested block kind is tolerated");
     chk.assume("--tag-scores without --predict-tags is meaningless: a clean refusal (non-zero exit, empty stdout) or normal output without tag blocks is accepted, a panic is not");
     chk.finish(
-        "predict: every stream of 1..2 (thorough: + the 3-line streams containing a rejected line) lines from a 10-line pool (empty, NUL, spaces, slashes, backslashes, half-width, multi-byte) with and without final newline x every subset of {--no-norm, --predict-tags, --scores, --tag-scores} x 6 wsconst settings (none, D, G, D G, R, H R) x 3 models (without tags, with tags, with tags and a bias that splits almost everywhere so that filters really merge tokens) (quick: a rotating third of the stream x flag-set product); evaluate: every stream of 1..2/1..3 reference lines x {--no-norm} x {--predict-tags} x {char, word} x 6 wsconst settings x 3 models (quick: a quarter); stdout and exit status of the real binaries vs the library pipeline run in-process; non-trivial = blocks requested or more than one line",
+        "predict: every stream of 1..2 (thorough: + the 3-line streams containing a rejected line) lines from a 14-line pool (empty, NUL, spaces, slashes, backslashes, half-width ASCII, half-width CJK punctuation whose full-width form has the same byte length, combining mark, multi-byte, one 100-character line) with and without final newline x every subset of {--no-norm, --predict-tags, --scores, --tag-scores} x 6 wsconst settings (none, D, G, D G, R, H R) x 3 models (without tags, with tags, with tags and a bias that splits almost everywhere so that filters really merge tokens) (quick: a rotating third of the stream x flag-set product); evaluate: every stream of 1..2/1..3 reference lines x {--no-norm} x {--predict-tags} x {char, word} x 6 wsconst settings x 3 models (quick: a quarter); stdout and exit status of the real binaries vs the library pipeline run in-process; non-trivial = blocks requested or more than one line",
         true,
         &replay,
     )
